@@ -436,6 +436,25 @@ pub unsafe extern "C" fn public_key_deserialize(
 #[no_mangle]
 pub unsafe extern "C" fn public_key_free(_kp: Option<Box<PublicKey>>) {}
 
+/// Applies a consuming builder call to the wrapped builder; a refused item leaves the
+/// wrapper usable (the inner builder is put back) instead of emptying it.
+fn keep_on_error<B: Clone>(
+    slot: &mut Option<B>,
+    f: impl FnOnce(B) -> Result<B, biscuit_auth::error::Token>,
+) -> Result<(), biscuit_auth::error::Token> {
+    let inner = slot.take().expect("builder is none");
+    match f(inner.clone()) {
+        Ok(updated) => {
+            *slot = Some(updated);
+            Ok(())
+        }
+        Err(e) => {
+            *slot = Some(inner);
+            Err(e)
+        }
+    }
+}
+
 impl BiscuitBuilder {
     fn set_context(&mut self, context: &str) {
         let mut inner = self.0.take().unwrap();
@@ -450,24 +469,15 @@ impl BiscuitBuilder {
     }
 
     fn add_fact(&mut self, fact: &str) -> Result<(), biscuit_auth::error::Token> {
-        let mut inner = self.0.take().unwrap();
-        inner = inner.fact(fact)?;
-        self.0 = Some(inner);
-        Ok(())
+        keep_on_error(&mut self.0, |inner| inner.fact(fact))
     }
 
     fn add_rule(&mut self, rule: &str) -> Result<(), biscuit_auth::error::Token> {
-        let mut inner = self.0.take().unwrap();
-        inner = inner.rule(rule)?;
-        self.0 = Some(inner);
-        Ok(())
+        keep_on_error(&mut self.0, |inner| inner.rule(rule))
     }
 
     fn add_check(&mut self, check: &str) -> Result<(), biscuit_auth::error::Token> {
-        let mut inner = self.0.take().unwrap();
-        inner = inner.check(check)?;
-        self.0 = Some(inner);
-        Ok(())
+        keep_on_error(&mut self.0, |inner| inner.check(check))
     }
 }
 #[no_mangle]
@@ -814,24 +824,15 @@ impl BlockBuilder {
     }
 
     fn add_fact(&mut self, fact: &str) -> Result<(), biscuit_auth::error::Token> {
-        let mut inner = self.0.take().unwrap();
-        inner = inner.fact(fact)?;
-        self.0 = Some(inner);
-        Ok(())
+        keep_on_error(&mut self.0, |inner| inner.fact(fact))
     }
 
     fn add_rule(&mut self, rule: &str) -> Result<(), biscuit_auth::error::Token> {
-        let mut inner = self.0.take().unwrap();
-        inner = inner.rule(rule)?;
-        self.0 = Some(inner);
-        Ok(())
+        keep_on_error(&mut self.0, |inner| inner.rule(rule))
     }
 
     fn add_check(&mut self, check: &str) -> Result<(), biscuit_auth::error::Token> {
-        let mut inner = self.0.take().unwrap();
-        inner = inner.check(check)?;
-        self.0 = Some(inner);
-        Ok(())
+        keep_on_error(&mut self.0, |inner| inner.check(check))
     }
 }
 
@@ -998,31 +999,19 @@ pub unsafe extern "C" fn block_builder_free(_builder: Option<Box<BlockBuilder>>)
 
 impl AuthorizerBuilder {
     fn add_fact(&mut self, fact: &str) -> Result<(), biscuit_auth::error::Token> {
-        let mut inner = self.0.take().unwrap();
-        inner = inner.fact(fact)?;
-        self.0 = Some(inner);
-        Ok(())
+        keep_on_error(&mut self.0, |inner| inner.fact(fact))
     }
 
     fn add_rule(&mut self, rule: &str) -> Result<(), biscuit_auth::error::Token> {
-        let mut inner = self.0.take().unwrap();
-        inner = inner.rule(rule)?;
-        self.0 = Some(inner);
-        Ok(())
+        keep_on_error(&mut self.0, |inner| inner.rule(rule))
     }
 
     fn add_check(&mut self, check: &str) -> Result<(), biscuit_auth::error::Token> {
-        let mut inner = self.0.take().unwrap();
-        inner = inner.check(check)?;
-        self.0 = Some(inner);
-        Ok(())
+        keep_on_error(&mut self.0, |inner| inner.check(check))
     }
 
     fn add_policy(&mut self, policy: &str) -> Result<(), biscuit_auth::error::Token> {
-        let mut inner = self.0.take().unwrap();
-        inner = inner.policy(policy)?;
-        self.0 = Some(inner);
-        Ok(())
+        keep_on_error(&mut self.0, |inner| inner.policy(policy))
     }
 }
 
